@@ -647,7 +647,7 @@ Proof.
       - rewrite map_id in Hin. pose proof (lmax_ge _ _ Hin). specialize (Hmin s Hs). lra.
       - pose proof (lmax_ge _ _ Hy). specialize (Hmin s Hs). lra. }
     pose proof (lmax_ge (map (fun r => lmin (map (fun s => M r s) V)) V) (lmin (map (fun s => M r0 s) V))
-                  ltac:(apply in_map_iff; exists r0; auto)). lra.
+                  ltac:(apply in_map_iff; exists r0; auto)) as Hfin. unfold M in *. lra.
 Qed.
 
 (* s' is no better than s in every objective (declared directions; true = maximise) *)
@@ -672,9 +672,7 @@ Theorem eps_textbook_monotone n dirs R S S' : length dirs = n ->
 Proof.
   intros Hd HR HS HW. unfold eps_textbook. apply lmax_mono.
   apply Forall2_map with (P := fun a b => a = b /\ In a R).
-  - clear HW. induction R as [|r R' IH]; constructor; [split; [reflexivity | now left]|].
-    assert (IH' := IH (fun r0 Hr0 => HR r0 (or_intror Hr0))).
-    clear -IH'. induction IH'; constructor; [destruct H; split; [auto | now right] | auto].
+  - apply Forall2_same. intros x Hx. split; [reflexivity | exact Hx].
   - intros r ? [<- Hr]. apply lmin_mono.
     assert (HS' : forall s, In s S -> length s = n) by exact HS.
     clear HS. revert HS'. induction HW as [|s s' T T' Hss HT IH]; intro HS'; simpl; constructor.
@@ -714,14 +712,17 @@ Proof.
   rewrite (H a (or_introl eq_refl)), (IH (fun x Hx => H x (or_intror Hx))). ring.
 Qed.
 
+Lemma sq_nonneg (x : Q) : 0 <= x * x.
+Proof. nra. Qed.
+
 Lemma sqd_nonneg : forall x y, 0 <= sqd x y.
 Proof.
-  unfold sqd. induction x as [|a x IH]; intros [|b y]; simpl; try lra.
-  specialize (IH y). assert (0 <= (a - b) * (a - b)) by nra. lra.
+  unfold sqd, qsum. induction x as [|a x IH]; intros [|b y]; cbn [zip2 fold_right]; try lra.
+  pose proof (IH y). pose proof (sq_nonneg (a - b)). lra.
 Qed.
 
 Lemma sqd_self : forall x, sqd x x == 0.
-Proof. unfold sqd. induction x as [|a x IH]; simpl; [reflexivity|]. rewrite IH. ring. Qed.
+Proof. unfold sqd, qsum. induction x as [|a x IH]; cbn [zip2 fold_right]; [reflexivity|]. rewrite IH. ring. Qed.
 
 Lemma nsq_nonneg x Y : 0 <= nsq x Y.
 Proof.
@@ -790,7 +791,7 @@ Proof. change 0 with (inject_Z 0). rewrite <- Zle_Qle. lia. Qed.
 Theorem spacing_sq_nonneg ds : 0 <= spacing_sq_textbook ds.
 Proof.
   unfold spacing_sq_textbook. apply Qdiv_nonneg; [|apply inject_nat_nonneg].
-  apply qsum_nonneg. intros x Hx. apply in_map_iff in Hx. destruct Hx as [d [<- _]]. nra.
+  apply qsum_nonneg. intros x Hx. apply in_map_iff in Hx. destruct Hx as [d [<- _]]. apply sq_nonneg.
 Qed.
 
 Theorem spacing_model_nonneg set q : spacing_calculate set = Ok q -> 0 <= q.
@@ -799,7 +800,7 @@ Proof.
   - intro H. inversion H. lra.
   - destruct (spacing_distances (feasible set)) as [ds|]; cbn [bind]; [|discriminate].
     intro H. inversion H. apply Qdiv_nonneg; [|apply inject_nat_nonneg].
-    apply qsum_nonneg. intros x Hx. apply in_map_iff in Hx. destruct Hx as [d [<- _]]. nra.
+    apply qsum_nonneg. intros x Hx. apply in_map_iff in Hx. destruct Hx as [d [<- _]]. apply sq_nonneg.
 Qed.
 
 Theorem spacing_sq_peq ds ds' : peq ds ds' -> spacing_sq_textbook ds == spacing_sq_textbook ds'.
@@ -822,4 +823,445 @@ Proof.
   split; [now apply Permutation_map|].
   apply Forall2_map with (P := eq); [apply Forall2_same; reflexivity|].
   intros s1 ? <-. apply lmin_perm. apply Permutation_map. now apply Permutation_filter.
+Qed.
+
+(* ================= end-to-end corollaries about the model of the classes ================= *)
+
+Lemma accepted_self nobjs ref c st0 : (1 <= nobjs)%nat -> ind_make nobjs [] ref = Ok (c, st0) ->
+  wf_set nobjs (feasible ref) -> accepted nobjs ref ref c st0.
+Proof.
+  intros H1 Hm Hw. constructor; auto. destruct Hw as [A B]. split.
+  - intros s Hs. apply A. apply in_app_or in Hs. tauto.
+  - intros s s' Hs Hs'. apply B; apply in_app_or in Hs; apply in_app_or in Hs'; tauto.
+Qed.
+
+Lemma normed_lengths nobjs ref set c st0 l : accepted nobjs ref set c st0 -> incl l (feasible ref ++ feasible set) ->
+  forall v, In v (map (normed c) l) -> length v = nobjs.
+Proof.
+  intros Hacc Hi v Hv. destruct (accepted_facts _ _ _ _ _ Hacc) as [_ [_ [_ [_ [_ [_ G]]]]]].
+  apply in_map_iff in Hv. destruct Hv as [s [<- Hs]]. apply G. now apply Hi.
+Qed.
+
+(* the indicators of the reference set itself *)
+Theorem eps_ref_zero nobjs dirs ref c st0 : (1 <= nobjs)%nat -> length dirs = nobjs ->
+  ind_make nobjs [] ref = Ok (c, st0) -> wf_set nobjs (feasible ref) ->
+  exists e, eps_indicator nobjs dirs ref ref = Ok (XFin e) /\ e == 0.
+Proof.
+  intros H1 Hd Hm Hw. pose proof (accepted_self nobjs ref c st0 H1 Hm Hw) as Hacc.
+  destruct (accepted_facts _ _ _ _ _ Hacc) as [_ [_ [C _]]].
+  rewrite (eps_unfold nobjs dirs ref ref c st0 Hacc Hd).
+  destruct (feasible ref) as [|r0 rr] eqn:E; [congruence|]. rewrite <- E in *.
+  eexists. split; [reflexivity|].
+  apply (eps_textbook_self nobjs); auto.
+  - intro Em. apply map_eq_nil in Em. contradiction.
+  - apply (normed_lengths nobjs ref ref c st0 _ Hacc). apply incl_appl, incl_refl.
+Qed.
+
+Theorem gd_ref_zero nobjs ref c st0 : (1 <= nobjs)%nat ->
+  ind_make nobjs [] ref = Ok (c, st0) -> wf_set nobjs (feasible ref) ->
+  exists ts, gd_indicator nobjs ref ref = Ok (ITerms ts (length (feasible ref))) /\
+             (forall t, In t ts -> t == 0) /\ qsum ts == 0.
+Proof.
+  intros H1 Hm Hw. pose proof (accepted_self nobjs ref c st0 H1 Hm Hw) as Hacc.
+  destruct (accepted_facts _ _ _ _ _ Hacc) as [_ [_ [C _]]].
+  rewrite (gd_unfold nobjs ref ref c st0 Hacc).
+  destruct (feasible ref) as [|r0 rr] eqn:E; [congruence|]. rewrite <- E in *.
+  eexists. split; [reflexivity|]. apply gd_terms_self.
+Qed.
+
+Theorem igd_ref_zero nobjs ref c st0 : (1 <= nobjs)%nat ->
+  ind_make nobjs [] ref = Ok (c, st0) -> wf_set nobjs (feasible ref) ->
+  exists ts, igd_indicator nobjs ref ref = Ok (ITerms ts (length (feasible ref))) /\
+             (forall t, In t ts -> t == 0) /\ qsum ts == 0.
+Proof.
+  intros H1 Hm Hw. pose proof (accepted_self nobjs ref c st0 H1 Hm Hw) as Hacc.
+  destruct (accepted_facts _ _ _ _ _ Hacc) as [_ [_ [C _]]].
+  rewrite (igd_unfold nobjs ref ref c st0 Hacc).
+  destruct (feasible ref) as [|r0 rr] eqn:E; [congruence|]. rewrite <- E in *.
+  eexists. split; [reflexivity|]. apply gd_terms_self.
+Qed.
+
+(* non-negativity of the ingredients: GD = (sum sqrt(t)^d)^(1/d)/n with every t >= 0, n >= 1 *)
+Theorem gd_nonneg nobjs ref set c st0 ts n : accepted nobjs ref set c st0 ->
+  gd_indicator nobjs ref set = Ok (ITerms ts n) ->
+  (forall t, In t ts -> 0 <= t) /\ 0 <= qsum ts /\ n = length (feasible set) /\ (1 <= n)%nat.
+Proof.
+  intros Hacc. rewrite (gd_unfold nobjs ref set c st0 Hacc).
+  destruct (feasible set) as [|s0 r0] eqn:E; [discriminate|]. rewrite <- E.
+  intro H. inversion H. subst. split; [apply gd_terms_nonneg|]. split; [apply gd_terms_nonneg|].
+  split; [reflexivity | rewrite E; simpl; lia].
+Qed.
+
+Theorem igd_nonneg nobjs ref set c st0 ts n : accepted nobjs ref set c st0 ->
+  igd_indicator nobjs ref set = Ok (ITerms ts n) ->
+  (forall t, In t ts -> 0 <= t) /\ 0 <= qsum ts /\ n = length (feasible ref) /\ (1 <= n)%nat.
+Proof.
+  intros Hacc. rewrite (igd_unfold nobjs ref set c st0 Hacc).
+  destruct (accepted_facts _ _ _ _ _ Hacc) as [_ [_ [C _]]].
+  destruct (feasible set) as [|s0 r0] eqn:E; [discriminate|]. rewrite <- E.
+  intro H. inversion H. subst. split; [apply gd_terms_nonneg|]. split; [apply gd_terms_nonneg|].
+  split; [reflexivity | destruct (feasible ref); [congruence | simpl; lia]].
+Qed.
+
+(* +infinity exactly when there is no feasible member *)
+Theorem no_feasible_member_inf nobjs dirs ref set c st0 : accepted nobjs ref set c st0 -> length dirs = nobjs ->
+  (feasible set = [] ->
+     eps_indicator nobjs dirs ref set = Ok XInf /\ gd_indicator nobjs ref set = Ok IInf /\
+     igd_indicator nobjs ref set = Ok IInf) /\
+  (feasible set <> [] ->
+     (exists e, eps_indicator nobjs dirs ref set = Ok (XFin e)) /\
+     (exists ts n, gd_indicator nobjs ref set = Ok (ITerms ts n)) /\
+     (exists ts n, igd_indicator nobjs ref set = Ok (ITerms ts n))).
+Proof.
+  intros Hacc Hd.
+  rewrite (eps_unfold nobjs dirs ref set c st0 Hacc Hd), (gd_unfold nobjs ref set c st0 Hacc), (igd_unfold nobjs ref set c st0 Hacc).
+  split; intro E.
+  - rewrite E. auto.
+  - destruct (feasible set); [congruence|]. repeat split; eauto.
+Qed.
+
+(* order of the approximation set *)
+Lemma accepted_perm_set nobjs ref set set' c st0 : accepted nobjs ref set c st0 -> Permutation set set' ->
+  accepted nobjs ref set' c st0.
+Proof.
+  intros [H1 Hm Hw] Hp. constructor; auto.
+  apply (wf_set_perm nobjs (feasible ref ++ feasible set)); [|exact Hw].
+  apply Permutation_app_head. unfold feasible. now apply Permutation_filter.
+Qed.
+
+Theorem eps_set_order nobjs dirs ref set set' c st0 : accepted nobjs ref set c st0 -> length dirs = nobjs ->
+  Permutation set set' ->
+  match eps_indicator nobjs dirs ref set, eps_indicator nobjs dirs ref set' with
+  | Ok XInf, Ok XInf => True
+  | Ok (XFin e), Ok (XFin e') => e == e'
+  | _, _ => False
+  end.
+Proof.
+  intros Hacc Hd Hp. pose proof (accepted_perm_set _ _ _ _ _ _ Hacc Hp) as Hacc'.
+  rewrite (eps_unfold nobjs dirs ref set c st0 Hacc Hd), (eps_unfold nobjs dirs ref set' c st0 Hacc' Hd).
+  assert (Hpf : Permutation (feasible set) (feasible set')) by (unfold feasible; now apply Permutation_filter).
+  destruct (feasible set) as [|a r] eqn:E, (feasible set') as [|a' r'] eqn:E'; auto.
+  - apply Permutation_nil in Hpf. discriminate.
+  - apply Permutation_sym, Permutation_nil in Hpf. discriminate.
+  - apply eps_textbook_perm; [apply Permutation_refl | now apply Permutation_map].
+Qed.
+
+Theorem gd_set_order nobjs ref set set' c st0 : accepted nobjs ref set c st0 -> Permutation set set' ->
+  match gd_indicator nobjs ref set, gd_indicator nobjs ref set' with
+  | Ok IInf, Ok IInf => True
+  | Ok (ITerms ts n), Ok (ITerms ts' n') => peq ts ts' /\ n = n'
+  | _, _ => False
+  end.
+Proof.
+  intros Hacc Hp. pose proof (accepted_perm_set _ _ _ _ _ _ Hacc Hp) as Hacc'.
+  rewrite (gd_unfold nobjs ref set c st0 Hacc), (gd_unfold nobjs ref set' c st0 Hacc').
+  assert (Hpf : Permutation (feasible set) (feasible set')) by (unfold feasible; now apply Permutation_filter).
+  pose proof (Permutation_length Hpf) as Hlen.
+  destruct (feasible set) as [|a r] eqn:E, (feasible set') as [|a' r'] eqn:E'; auto; try discriminate.
+  split; [|exact Hlen]. apply gd_terms_perm; [apply Permutation_refl | now apply Permutation_map].
+Qed.
+
+Theorem igd_set_order nobjs ref set set' c st0 : accepted nobjs ref set c st0 -> Permutation set set' ->
+  match igd_indicator nobjs ref set, igd_indicator nobjs ref set' with
+  | Ok IInf, Ok IInf => True
+  | Ok (ITerms ts n), Ok (ITerms ts' n') => peq ts ts' /\ n = n'
+  | _, _ => False
+  end.
+Proof.
+  intros Hacc Hp. pose proof (accepted_perm_set _ _ _ _ _ _ Hacc Hp) as Hacc'.
+  rewrite (igd_unfold nobjs ref set c st0 Hacc), (igd_unfold nobjs ref set' c st0 Hacc').
+  assert (Hpf : Permutation (feasible set) (feasible set')) by (unfold feasible; now apply Permutation_filter).
+  pose proof (Permutation_length Hpf) as Hlen.
+  destruct (feasible set) as [|a r] eqn:E, (feasible set') as [|a' r'] eqn:E'; auto; try discriminate.
+  split; [|reflexivity]. apply gd_terms_perm; [now apply Permutation_map | apply Permutation_refl].
+Qed.
+
+Theorem spacing_order nobjs set set' q q' : (forall s, In s (feasible set) -> length (s_objs s) = nobjs) ->
+  Permutation set set' -> spacing_calculate set = Ok q -> spacing_calculate set' = Ok q' -> q == q'.
+Proof.
+  intros Hlen Hp Hq Hq'.
+  assert (Hpf : Permutation (feasible set) (feasible set')) by (unfold feasible; now apply Permutation_filter).
+  assert (Hlen' : forall s, In s (feasible set') -> length (s_objs s) = nobjs).
+  { intros s Hs. apply Hlen. apply Permutation_in with (feasible set'); [now apply Permutation_sym | exact Hs]. }
+  rewrite (spacing_unfold set q Hq), (spacing_unfold set' q' Hq').
+  - rewrite <- (Permutation_length Hpf). destruct (Nat.ltb (length (feasible set)) 2); [reflexivity|].
+    apply spacing_sq_peq. now apply spacing_ds_perm.
+  - intros s Hs. rewrite (Hlen' s Hs). symmetry. apply Hlen'. destruct (feasible set'); [destruct Hs | now left].
+  - intros s Hs. rewrite (Hlen s Hs). symmetry. apply Hlen. destruct (feasible set); [destruct Hs | now left].
+Qed.
+Lemma nth_map_seq {B} (f : nat -> B) n i d : (i < n)%nat -> nth i (map f (seq 0 n)) d = f i.
+Proof.
+  intro Hi. rewrite (nth_indep _ d (f 0%nat)) by (now rewrite map_length, seq_length).
+  rewrite map_nth. now rewrite seq_nth.
+Qed.
+
+
+Lemma Qdiv_le_mono a b c : 0 < c -> a <= b -> a / c <= b / c.
+Proof.
+  intros Hc Hab. unfold Qdiv. apply Qmult_le_compat_r; [exact Hab|].
+  apply Qlt_le_weak. now apply Qinv_lt_0_compat.
+Qed.
+
+
+(* ---------- the bounds are the column minima / maxima of the feasible reference members ---------- *)
+Definition colv (feas : list isol) (k : nat) : list Q := map (fun s => nth k (s_objs s) 0) feas.
+
+Lemma column_ok feas i nobjs : (forall s, In s feas -> length (s_objs s) = nobjs) -> (i < nobjs)%nat ->
+  column feas i = Ok (colv feas i).
+Proof.
+  intros Hl Hi. unfold column, colv. apply mapM_ok_map. intros s Hs. apply nth_res_ok. rewrite (Hl s Hs). exact Hi.
+Qed.
+
+Theorem ind_make_bounds_textbook nobjs st ref c st' : (1 <= nobjs)%nat ->
+  ind_make nobjs st ref = Ok (c, st') -> (forall s, In s (feasible ref) -> length (s_objs s) = nobjs) ->
+  i_min c = map (fun k => lmin (colv (feasible ref) k)) (seq 0 nobjs) /\
+  i_max c = map (fun k => lmax (colv (feasible ref) k)) (seq 0 nobjs).
+Proof.
+  intros H1 Hm Hlen.
+  destruct (ind_make_ok nobjs st ref c st' H1 Hm Hlen) as [_ [_ [Hne _]]].
+  revert Hm. unfold ind_make, normalize. destruct ref as [|r0 rr]; [discriminate|].
+  set (feas := feasible (r0 :: rr)) in *.
+  assert (Hcol : forall k, colv feas k <> []) by (intros k E; apply map_eq_nil in E; contradiction).
+  rewrite (mapM_ok_map _ (fun k => lmin (colv feas k))).
+  2:{ intros k Hk. apply in_seq in Hk. rewrite (column_ok feas k nobjs Hlen) by lia. cbn [bind]. now apply qminl_ok. }
+  rewrite (mapM_ok_map _ (fun k => lmax (colv feas k))).
+  2:{ intros k Hk. apply in_seq in Hk. rewrite (column_ok feas k nobjs Hlen) by lia. cbn [bind]. now apply qmaxl_ok. }
+  cbn [bind].
+  destruct (empty_range nobjs _ _) as [e|]; cbn [bind]; [|discriminate]. destruct e; [discriminate|].
+  destruct (write_normalized nobjs _ _ st feas); cbn [bind]; [|discriminate].
+  intro H. injection H as Ec _. subst c. simpl. split; reflexivity.
+Qed.
+
+Lemma existsb_false {A} (f : A -> bool) l : existsb f l = false -> forall x, In x l -> f x = false.
+Proof.
+  intros E x Hx. destruct (f x) eqn:Fx; [|reflexivity].
+  assert (existsb f l = true) by (apply existsb_exists; eauto). congruence.
+Qed.
+
+Lemma empty_range_false nobjs mins maxs : empty_range nobjs mins maxs = Ok false ->
+  length mins = nobjs -> length maxs = nobjs ->
+  forall k, (k < nobjs)%nat -> EPSILON <= Qabs (nth k maxs 0 - nth k mins 0).
+Proof.
+  intros He Hlo Hhi k Hk. unfold empty_range in He.
+  rewrite (mapM_ok_map _ (fun i => Qltb (Qabs (nth i maxs 0 - nth i mins 0)) EPSILON)) in He.
+  - cbn [bind] in He. injection He as He.
+    pose proof (existsb_false _ _ He (Qltb (Qabs (nth k maxs 0 - nth k mins 0)) EPSILON)) as Hf.
+    apply Qltb_false. apply Hf. apply in_map_iff. exists k. split; [reflexivity | apply in_seq; lia].
+  - intros i Hi. apply in_seq in Hi. rewrite (nth_res_ok mins i 0) by lia. rewrite (nth_res_ok maxs i 0) by lia. reflexivity.
+Qed.
+
+(* non-degenerate ranges are positive: max - min >= EPSILON > 0 in every objective *)
+Lemma accepted_positive_range nobjs ref set c st0 : accepted nobjs ref set c st0 ->
+  forall k, (k < nobjs)%nat -> nth k (i_min c) 0 < nth k (i_max c) 0.
+Proof.
+  intros Hacc k Hk. destruct (accepted_facts _ _ _ _ _ Hacc) as [_ [_ [C [D [E [F _]]]]]].
+  pose proof (empty_range_false nobjs _ _ F D E k Hk) as Habs.
+  destruct (ind_make_bounds_textbook nobjs [] ref c st0 (acc_nobjs _ _ _ _ _ Hacc) (acc_make _ _ _ _ _ Hacc)) as [Emin Emax].
+  { intros s Hs. apply (proj1 (acc_wf _ _ _ _ _ Hacc)). apply in_or_app. now left. }
+  rewrite Emin, Emax in *. rewrite !nth_map_seq in * by exact Hk.
+  set (col := colv (feasible ref) k) in *.
+  assert (Hcol : col <> []) by (intro E0; apply map_eq_nil in E0; contradiction).
+  pose proof (lmin_in col Hcol) as Hin. pose proof (lmax_ge col _ Hin) as Hle.
+  assert (Hpos : 0 < EPSILON) by reflexivity.
+  rewrite Qabs_pos in Habs by lra. lra.
+Qed.
+
+Lemma nth_normv nobjs mins maxs o k : length o = nobjs -> length mins = nobjs -> length maxs = nobjs -> (k < nobjs)%nat ->
+  nth k (normv mins maxs o) 0 = (nth k o 0 - nth k mins 0) / (nth k maxs 0 - nth k mins 0).
+Proof.
+  intros Ho Hlo Hhi Hk. unfold normv. rewrite (zip3_as_map _ 0 0 0 nobjs o mins maxs Ho Hlo Hhi). now rewrite nth_map_seq.
+Qed.
+
+(* ---------- eps_monotone_worse ---------- *)
+(* s' is the object s made worse: same feasibility, every objective no better *)
+Definition raw_worse (dirs : list bool) (s s' : isol) : Prop :=
+  s_cv s' = s_cv s /\ length (s_objs s') = length (s_objs s) /\
+  forall k, (k < length dirs)%nat ->
+    if nth k dirs false then nth k (s_objs s') 0 <= nth k (s_objs s) 0 else nth k (s_objs s) 0 <= nth k (s_objs s') 0.
+
+Lemma Forall2_filter_aligned {A} (R : A -> A -> Prop) (p : A -> bool) l l' :
+  (forall a b, R a b -> p a = p b) -> Forall2 R l l' -> Forall2 R (filter p l) (filter p l').
+Proof.
+  intros Hp. induction 1 as [|a b r r' Hab _ IH]; simpl; [constructor|].
+  rewrite (Hp a b Hab). destruct (p b); [now constructor | exact IH].
+Qed.
+
+Lemma Forall2_impl' {A B} (R1 R2 : A -> B -> Prop) l l' :
+  (forall a b, R1 a b -> R2 a b) -> Forall2 R1 l l' -> Forall2 R2 l l'.
+Proof. intros Hi. induction 1; constructor; auto. Qed.
+
+Lemma Forall2_with_in {A B} (R : A -> B -> Prop) l l' :
+  Forall2 R l l' -> Forall2 (fun a b => R a b /\ In a l /\ In b l') l l'.
+Proof.
+  induction 1 as [|a b r r' Hab _ IH]; constructor.
+  - split; [exact Hab | split; now left].
+  - eapply Forall2_impl'; [|exact IH]. intros x y [Hr [Hx Hy]]. split; [exact Hr | split; now right].
+Qed.
+
+Theorem eps_monotone_worse nobjs dirs ref set set' c st0 e e' :
+  accepted nobjs ref set c st0 -> accepted nobjs ref set' c st0 -> length dirs = nobjs ->
+  Forall2 (raw_worse dirs) set set' ->
+  eps_indicator nobjs dirs ref set = Ok (XFin e) -> eps_indicator nobjs dirs ref set' = Ok (XFin e') -> e <= e'.
+Proof.
+  intros Hacc Hacc' Hd HW.
+  rewrite (eps_unfold nobjs dirs ref set c st0 Hacc Hd), (eps_unfold nobjs dirs ref set' c st0 Hacc' Hd).
+  assert (HWf : Forall2 (raw_worse dirs) (feasible set) (feasible set')).
+  { unfold feasible. apply Forall2_filter_aligned; [|exact HW]. intros a b [Ecv _]. unfold feasibleb. now rewrite Ecv. }
+  destruct (feasible set) as [|a r] eqn:E; [discriminate|]. destruct (feasible set') as [|a' r'] eqn:E'; [discriminate|].
+  rewrite <- E, <- E' in *. intros H H'. injection H as <-. injection H' as <-.
+  destruct (accepted_facts _ _ _ _ _ Hacc) as [_ [_ [_ [D [D' [_ G]]]]]].
+  destruct (accepted_facts _ _ _ _ _ Hacc') as [_ [_ [_ [_ [_ [_ G']]]]]].
+  apply (eps_textbook_monotone nobjs); auto.
+  - apply (normed_lengths nobjs ref set c st0 _ Hacc). apply incl_appl, incl_refl.
+  - apply (normed_lengths nobjs ref set c st0 _ Hacc). apply incl_appr, incl_refl.
+  - apply Forall2_map with (P := fun s s' => raw_worse dirs s s' /\ In s (feasible set) /\ In s' (feasible set')).
+    + now apply Forall2_with_in.
+    + intros s s' [[Ecv [Elen Hk]] [Hs Hs']].
+      assert (Ls : length (s_objs s) = nobjs) by (apply (proj1 (acc_wf _ _ _ _ _ Hacc)); apply in_or_app; now right).
+      assert (Ls' : length (s_objs s') = nobjs) by congruence.
+      split.
+      * rewrite (G s) by (apply in_or_app; now right). apply G'. apply in_or_app. now right.
+      * intros k Hk'. rewrite Hd in Hk'. unfold normed. rewrite !(nth_normv nobjs) by auto.
+        specialize (Hk k ltac:(lia)). pose proof (accepted_positive_range _ _ _ _ _ Hacc k Hk') as Hpos.
+        destruct (nth k dirs false); apply Qdiv_le_mono; lra.
+Qed.
+
+(* ---------- order of the REFERENCE set ---------- *)
+(* the bounds of a reordered reference set are the same numbers (==, possibly other
+   representatives); everything downstream respects == *)
+Lemma normv_veq : forall o mins maxs mins' maxs',
+  Forall2 Qeq mins mins' -> Forall2 Qeq maxs maxs' -> Forall2 Qeq (normv mins maxs o) (normv mins' maxs' o).
+Proof.
+  unfold normv. induction o as [|a o IH]; intros mins maxs mins' maxs' H1 H2; [constructor|].
+  destruct H1 as [|lo lo' m m' Elo Hm]; [constructor|]. destruct H2 as [|hi hi' M M' Ehi HM]; [constructor|].
+  simpl. constructor; [now rewrite Elo, Ehi | now apply IH].
+Qed.
+
+Lemma dev_veq : forall dirs r r' s s', Forall2 Qeq r r' -> Forall2 Qeq s s' -> Forall2 Qeq (dev dirs r s) (dev dirs r' s').
+Proof.
+  unfold dev. induction dirs as [|mx ds IH]; intros r r' s s' Hr Hs; [constructor|].
+  destruct Hs as [|a a' t t' Ea Ht]; [constructor|]. destruct Hr as [|b b' u u' Eb Hu]; [constructor|].
+  simpl. constructor; [unfold adj_diff; now rewrite Ea, Eb | now apply IH].
+Qed.
+
+Theorem eps_textbook_veq dirs R R' S S' :
+  Forall2 (Forall2 Qeq) R R' -> Forall2 (Forall2 Qeq) S S' -> eps_textbook dirs R S == eps_textbook dirs R' S'.
+Proof.
+  intros HR HS. unfold eps_textbook. apply lmax_veq. apply Forall2_map with (P := Forall2 Qeq); [exact HR|].
+  intros r r' Hr. apply lmin_veq. apply Forall2_map with (P := Forall2 Qeq); [exact HS|].
+  intros s s' Hs. apply lmax_veq. now apply dev_veq.
+Qed.
+
+Lemma sqd_veq : forall x x' y y', Forall2 Qeq x x' -> Forall2 Qeq y y' -> sqd x y == sqd x' y'.
+Proof.
+  unfold sqd, qsum. intros x x' y y' Hx. revert y y'.
+  induction Hx as [|a a' t t' Ea Ht IH]; intros y y' Hy; [reflexivity|].
+  destruct Hy as [|b b' u u' Eb Hu]; [reflexivity|]. cbn [zip2 fold_right]. rewrite Ea, Eb, (IH u u' Hu). reflexivity.
+Qed.
+
+Theorem gd_terms_veq R R' S S' :
+  Forall2 (Forall2 Qeq) R R' -> Forall2 (Forall2 Qeq) S S' ->
+  Forall2 Qeq (gd_terms_textbook R S) (gd_terms_textbook R' S').
+Proof.
+  intros HR HS. unfold gd_terms_textbook. apply Forall2_map with (P := Forall2 Qeq); [exact HS|].
+  intros s s' Hs. unfold nsq. apply lmin_veq. apply Forall2_map with (P := Forall2 Qeq); [exact HR|].
+  intros r r' Hr. now apply sqd_veq.
+Qed.
+
+Lemma Forall2_perm_r {A B} (R : A -> B -> Prop) a a' m :
+  Forall2 R a a' -> Permutation a' m -> exists m0, Permutation a m0 /\ Forall2 R m0 m.
+Proof.
+  intros HF HP. revert a HF. induction HP as [|x l l' HP IH|x y l|l l' l'' HP1 IH1 HP2 IH2]; intros a HF.
+  - inversion HF. subst. exists []. split; constructor.
+  - inversion HF as [|a0 ? r ? Hax Hr]. subst. destruct (IH r Hr) as [m0 [P0 F0]].
+    exists (a0 :: m0). split; [now constructor | now constructor].
+  - inversion HF as [|a0 ? r ? Hay Hr]. subst. inversion Hr as [|a1 ? r1 ? Hax Hr1]. subst.
+    exists (a1 :: a0 :: r1). split; [apply perm_swap | repeat constructor; assumption].
+  - destruct (IH1 a HF) as [m1 [P1 F1]]. destruct (IH2 m1 F1) as [m2 [P2 F2]].
+    exists m2. split; [now apply Permutation_trans with m1 | exact F2].
+Qed.
+
+Lemma Forall2_Qeq_trans l1 l2 l3 : Forall2 Qeq l1 l2 -> Forall2 Qeq l2 l3 -> Forall2 Qeq l1 l3.
+Proof.
+  intros H12. revert l3. induction H12 as [|a b r r' Eab _ IH]; intros l3 H23; inversion H23; subst; constructor.
+  - now rewrite Eab.
+  - now apply IH.
+Qed.
+
+Lemma peq_veq_l a a' b : Forall2 Qeq a a' -> peq a' b -> peq a b.
+Proof.
+  intros HF [m [HP HV]]. destruct (Forall2_perm_r Qeq a a' m HF HP) as [m0 [P0 F0]].
+  exists m0. split; [exact P0 | now apply Forall2_Qeq_trans with m].
+Qed.
+
+Lemma bounds_ref_order nobjs ref ref' set c c' st0 st0' :
+  accepted nobjs ref set c st0 -> accepted nobjs ref' set c' st0' -> Permutation ref ref' ->
+  Forall2 Qeq (i_min c) (i_min c') /\ Forall2 Qeq (i_max c) (i_max c').
+Proof.
+  intros Hacc Hacc' Hp.
+  destruct (ind_make_bounds_textbook nobjs [] ref c st0 (acc_nobjs _ _ _ _ _ Hacc) (acc_make _ _ _ _ _ Hacc)) as [Emin Emax].
+  { intros s Hs. apply (proj1 (acc_wf _ _ _ _ _ Hacc)). apply in_or_app. now left. }
+  destruct (ind_make_bounds_textbook nobjs [] ref' c' st0' (acc_nobjs _ _ _ _ _ Hacc') (acc_make _ _ _ _ _ Hacc')) as [Emin' Emax'].
+  { intros s Hs. apply (proj1 (acc_wf _ _ _ _ _ Hacc')). apply in_or_app. now left. }
+  assert (Hpf : Permutation (feasible ref) (feasible ref')) by (unfold feasible; now apply Permutation_filter).
+  rewrite Emin, Emax, Emin', Emax'. split.
+  - apply Forall2_map with (P := eq); [apply Forall2_same; reflexivity|]. intros k ? <-. apply lmin_perm. unfold colv. now apply Permutation_map.
+  - apply Forall2_map with (P := eq); [apply Forall2_same; reflexivity|]. intros k ? <-. apply lmax_perm. unfold colv. now apply Permutation_map.
+Qed.
+
+Lemma normed_veq_lists c c' l : Forall2 Qeq (i_min c) (i_min c') -> Forall2 Qeq (i_max c) (i_max c') ->
+  Forall2 (Forall2 Qeq) (map (normed c) l) (map (normed c') l).
+Proof.
+  intros H1 H2. apply Forall2_map with (P := eq); [apply Forall2_same; reflexivity|].
+  intros s ? <-. unfold normed. now apply normv_veq.
+Qed.
+
+Theorem eps_ref_order nobjs dirs ref ref' set c c' st0 st0' :
+  accepted nobjs ref set c st0 -> accepted nobjs ref' set c' st0' -> length dirs = nobjs -> Permutation ref ref' ->
+  match eps_indicator nobjs dirs ref set, eps_indicator nobjs dirs ref' set with
+  | Ok XInf, Ok XInf => True
+  | Ok (XFin e), Ok (XFin e') => e == e'
+  | _, _ => False
+  end.
+Proof.
+  intros Hacc Hacc' Hd Hp. destruct (bounds_ref_order _ _ _ _ _ _ _ _ Hacc Hacc' Hp) as [B1 B2].
+  rewrite (eps_unfold nobjs dirs ref set c st0 Hacc Hd), (eps_unfold nobjs dirs ref' set c' st0' Hacc' Hd).
+  assert (Hpf : Permutation (feasible ref) (feasible ref')) by (unfold feasible; now apply Permutation_filter).
+  destruct (feasible set) as [|a r] eqn:E; [exact I|]. rewrite <- E.
+  rewrite <- (eps_textbook_perm dirs _ _ _ _ (Permutation_map (normed c') Hpf) (Permutation_refl _)).
+  apply eps_textbook_veq; now apply normed_veq_lists.
+Qed.
+
+Theorem gd_ref_order nobjs ref ref' set c c' st0 st0' :
+  accepted nobjs ref set c st0 -> accepted nobjs ref' set c' st0' -> Permutation ref ref' ->
+  match gd_indicator nobjs ref set, gd_indicator nobjs ref' set with
+  | Ok IInf, Ok IInf => True
+  | Ok (ITerms ts n), Ok (ITerms ts' n') => peq ts ts' /\ n = n'
+  | _, _ => False
+  end.
+Proof.
+  intros Hacc Hacc' Hp. destruct (bounds_ref_order _ _ _ _ _ _ _ _ Hacc Hacc' Hp) as [B1 B2].
+  rewrite (gd_unfold nobjs ref set c st0 Hacc), (gd_unfold nobjs ref' set c' st0' Hacc').
+  assert (Hpf : Permutation (feasible ref) (feasible ref')) by (unfold feasible; now apply Permutation_filter).
+  destruct (feasible set) as [|a r] eqn:E; [exact I|]. rewrite <- E. split; [|reflexivity].
+  apply peq_veq_l with (gd_terms_textbook (map (normed c') (feasible ref)) (map (normed c') (feasible set))).
+  - apply gd_terms_veq; now apply normed_veq_lists.
+  - apply gd_terms_perm; [now apply Permutation_map | apply Permutation_refl].
+Qed.
+
+Theorem igd_ref_order nobjs ref ref' set c c' st0 st0' :
+  accepted nobjs ref set c st0 -> accepted nobjs ref' set c' st0' -> Permutation ref ref' ->
+  match igd_indicator nobjs ref set, igd_indicator nobjs ref' set with
+  | Ok IInf, Ok IInf => True
+  | Ok (ITerms ts n), Ok (ITerms ts' n') => peq ts ts' /\ n = n'
+  | _, _ => False
+  end.
+Proof.
+  intros Hacc Hacc' Hp. destruct (bounds_ref_order _ _ _ _ _ _ _ _ Hacc Hacc' Hp) as [B1 B2].
+  rewrite (igd_unfold nobjs ref set c st0 Hacc), (igd_unfold nobjs ref' set c' st0' Hacc').
+  assert (Hpf : Permutation (feasible ref) (feasible ref')) by (unfold feasible; now apply Permutation_filter).
+  destruct (feasible set) as [|a r] eqn:E; [exact I|]. rewrite <- E. split; [|apply (Permutation_length Hpf)].
+  apply peq_veq_l with (gd_terms_textbook (map (normed c') (feasible set)) (map (normed c') (feasible ref))).
+  - apply gd_terms_veq; now apply normed_veq_lists.
+  - apply gd_terms_perm; [apply Permutation_refl | now apply Permutation_map].
 Qed.
